@@ -76,7 +76,16 @@ class ConstValue(ConstBase):
     """
 
     # TODO: We will need a proper Guppy representation of this in the future
-    value: Any
+    value: Any = field(compare=False)
+
+    #: Constants are compared (and hashed) by this key instead of by `value`, so that
+    #: floats that are `==` but distinguishable (`0.0` and `-0.0`) are different constants
+    #: and do not share a monomorphised instance.
+    _key: Any = field(init=False, repr=False)
+
+    def __post_init__(self) -> None:
+        v = self.value
+        object.__setattr__(self, "_key", repr(v) if isinstance(v, float) else v)
 
     def cast(self) -> "Const":
         """Casts an implementor of `ConstBase` into a `Const`."""
